@@ -53,6 +53,40 @@ def inputs_of(rec):
     return {k: rec[k] for k in keys if k in rec}
 
 
+def judge_light(ctx, module, cfg, trace_path, nchunks=48, par=8, xmx="1200m", timeout=1500):
+    """vlib.judge_trace with small JVM heaps and bounded parallelism (the machine is shared): the
+    record file is split on line boundaries, every chunk is judged by its own single-worker TLC.
+    Returns the rejected records {l (global 1-based line), op, why[]}."""
+    chunks = vlib.split_file(trace_path, nchunks)
+
+    def one(ch):
+        p, first = ch
+        r = vlib.tlc(module, cfg, workers=1, env={"TRACE": p}, timeout=timeout, tag=module + "_j", xmx=xmx)
+        v = vlib._verdict_lines(r.out)
+        if "VERDICT" not in v:
+            raise vlib.Infra("judge %s gave no verdict on %s (rc=%d):\n%s" % (module, p, r.rc, "\n".join(r.out.splitlines()[-30:])))
+        vd = v["VERDICT"][-1]
+        bad = []
+        for b in vd["bad"]:
+            b = dict(b)
+            b["l"] = b["l"] + first
+            bad.append(b)
+        if vd["nbad"] > len(vd["bad"]):
+            bad.append({"l": bad[-1]["l"], "op": bad[-1]["op"], "why": ["more-rejected-records-than-listed"]})
+        return bad, r.generated
+    res = vlib.parallel(one, chunks, workers=par)
+    bad = []
+    for b, g in res:
+        bad += b
+        ctx.extra["trace_states"] = ctx.extra.get("trace_states", 0) + g
+    for p, _ in chunks:
+        try:
+            os.unlink(p)
+        except OSError:
+            pass
+    return sorted(bad, key=lambda b: b["l"])
+
+
 def judge_file(ctx, path, what, rc, out):
     lines, tail = vlib.check_trace_file(path)
     crash = [l for l in lines if l.startswith('{"e":"crash"')]
@@ -77,7 +111,7 @@ def judge_file(ctx, path, what, rc, out):
             f.write("\n".join(lines) + ("\n" if lines else ""))
     if not lines:
         return lines
-    bad = vlib.judge_trace(ctx, JUDGE, JUDGE_CFG, path, boundary_key=None, timeout=1500)
+    bad = judge_light(ctx, JUDGE, JUDGE_CFG, path)
     ctx.evaluations += len(lines)
     for b in bad:
         if "HARNESS-PRECONDITION" in b["why"]:
@@ -174,7 +208,7 @@ def sensitivity_guard(ctx, lines):
         raise vlib.Infra("sensitivity guard: no corruptible record for %s" % sorted(need - kinds))
     p = os.path.join(ctx.workdir, "corrupted.ndjson")
     vlib.write_ndjson(p, [c[0] for c in cor])
-    r = vlib.tlc(JUDGE, JUDGE_CFG, workers=1, env={"TRACE": p}, tag="GridJudge_sens")
+    r = vlib.tlc(JUDGE, JUDGE_CFG, workers=1, env={"TRACE": p}, tag="GridJudge_sens", xmx="1g")
     v = vlib._verdict_lines(r.out).get("VERDICT")
     if not v:
         raise vlib.Infra("sensitivity guard: no verdict\n" + r.out[-2000:])
@@ -188,16 +222,16 @@ def sensitivity_guard(ctx, lines):
 def run(ctx):
     thorough = ctx.tier == "thorough"
     # 1. the specification itself
-    vlib.tlc_mc(ctx, "GridIter", "MC_GridIter_n1.cfg", workers=2)
-    vlib.tlc_mc(ctx, "GridIter", "MC_GridIter_n2.cfg", workers=4)
-    vlib.tlc_mc(ctx, "GridIter", "MC_GridIter_n3.cfg" if thorough else "MC_GridIter_n3q.cfg", timeout=3000)
-    vlib.tlc_mc(ctx, "GridLaws", "MC_GridLaws_n1.cfg", workers=2)
-    vlib.tlc_mc(ctx, "GridLaws", "MC_GridLaws_n2.cfg", workers=8)
-    vlib.tlc_mc(ctx, "GridLaws", "MC_GridLaws_n3.cfg" if thorough else "MC_GridLaws_n3q.cfg", timeout=3000)
+    vlib.tlc_mc(ctx, "GridIter", "MC_GridIter_n1.cfg", workers=2, xmx="2g")
+    vlib.tlc_mc(ctx, "GridIter", "MC_GridIter_n2.cfg", workers=4, xmx="2g")
+    vlib.tlc_mc(ctx, "GridIter", "MC_GridIter_n3.cfg" if thorough else "MC_GridIter_n3q.cfg", timeout=3000, xmx="2g")
+    vlib.tlc_mc(ctx, "GridLaws", "MC_GridLaws_n1.cfg", workers=2, xmx="2g")
+    vlib.tlc_mc(ctx, "GridLaws", "MC_GridLaws_n2.cfg", workers=8, xmx="2g")
+    vlib.tlc_mc(ctx, "GridLaws", "MC_GridLaws_n3.cfg" if thorough else "MC_GridLaws_n3q.cfg", timeout=3000, xmx="2g")
 
     def guard(g):
         mod, cfg, inv = g
-        r = vlib.tlc(mod, cfg, workers=2)
+        r = vlib.tlc(mod, cfg, workers=2, xmx="1g")
         if inv not in r.invariant_violated:
             raise vlib.Infra("vacuity guard: %s/%s did not violate %s" % (mod, cfg, inv))
         return {"module": mod, "cfg": cfg, "violates": inv}
